@@ -2393,14 +2393,12 @@ Lemma side_conditions_necessary :
                  snd (step R s o) = RErr /\ obs (fst (step R s o)) <> obs s).
 Proof.
   split; [|split; [|split]].
-  - exists w1_R, w1_s, w1_o. split; [apply reachable_run|]. destruct w1_facts as [A [B [C [D E]]]].
-    repeat (split; [assumption|]). exact E.
+  - exists w1_R, w1_s, w1_o. split; [apply reachable_run|exact w1_facts].
   - exists w2_R, w2_s, w2_o. split; [apply reachable_run|]. destruct w2_facts as [A [B [C [D [E [F G]]]]]].
-    repeat (split; [assumption|]). exists (OpParse w_b1_imp_a FNull). split; assumption.
+    exact (conj A (conj B (conj C (conj D (conj E (ex_intro _ (OpParse w_b1_imp_a FNull) (conj F G))))))).
   - exists w2_R, w3_s, w2_o. split; [apply reachable_run|]. destruct w3_facts as [A [B [C [D E]]]].
-    repeat (split; [assumption|]). vm_compute. reflexivity.
-  - exists w4_R, w4_s, w4_o. split; [apply reachable_run|]. destruct w4_facts as [A [B [C [D E]]]].
-    repeat (split; [assumption|]). exact E.
+    refine (conj A (conj B (conj C (conj D (conj E _))))). vm_compute. reflexivity.
+  - exists w4_R, w4_s, w4_o. split; [apply reachable_run|exact w4_facts].
 Qed.
 Lemma hypotheses_satisfiable :
   reachable w7_R w7_s /\ quiescent w7_s = true /\
@@ -2418,7 +2416,7 @@ Lemma data_trees_refuted :
     option_map m_impl (find_mod k (mods s)) = Some true /\ In k (compiled_in (fst (step R s o))).
 Proof.
   exists w6_R, w6_s, w6_o, (0, 1). split; [apply reachable_run|]. destruct w6_facts as [A [B [C [D E]]]].
-    repeat (split; [assumption|]). exact D.
+  exact (conj A (conj B (conj C (conj E D)))).
 Qed.
 Lemma later_load_unaffected : forall R s s' o2,
   core s' = core s -> step R s' o2 = step R s o2.
